@@ -57,9 +57,9 @@ func main() {
 			}
 			return []percseq.Config{
 				{P: percseq.Params{Name: "histories", Cfg: small, Keys: []string{"a", "b"}, Txns: txns(), Ops: wide,
-					MaxReq: 10, Namespaced: true, NSPerDB: 128, Dedup: true, OneCommitTs: true}, Depth: 10},
+					MaxReq: 9, Namespaced: true, NSPerDB: 128, Dedup: true, OneCommitTs: true}, Depth: 9},
 				{P: percseq.Params{Name: "placement", Cfg: small, Keys: []string{"a", "b"}, Txns: ptx, Ops: place,
-					MaxReq: 5, MaxMaint: 4, Maint: []string{"rf", "l0-base", "ingest-drain", "ingest-keep", "reopen"}, Dedup: true, OneCommitTs: true}, Depth: 9},
+					MaxReq: 4, MaxMaint: 4, Maint: []string{"rf", "l0-base", "ingest-drain", "ingest-keep", "reopen"}, Dedup: true, OneCommitTs: true}, Depth: 8},
 				{P: percseq.Params{Name: "placement-art", Cfg: dbh.Config{Engine: "art", Buckets: 2}, Keys: []string{"a", "b"}, Txns: ptx, Ops: place[:5],
 					MaxReq: 4, MaxMaint: 4, Maint: []string{"rotate", "flush", "l0-base", "ingest-drain", "reopen"}, Dedup: true, OneCommitTs: true}, Depth: 8},
 			}
